@@ -5,7 +5,7 @@ CONSTANTS
   Depth = @DEPTH@
 INIT FamInit
 NEXT Next
-INVARIANTS NoStuck HeapWF AnyConcrete
+INVARIANTS NoStuck HeapWF AnyConcrete TypeSound
 PROPERTIES OutGrows
 CONSTRAINT Emit
 CHECK_DEADLOCK FALSE
